@@ -479,6 +479,12 @@ func backSlice(v ssa.Value, visit func(ssa.Value) bool) {
 		if !ok {
 			return
 		}
+		// a local cell: what was stored into it (a by-value struct parameter is spilled so that its fields can be addressed)
+		if al, ok := v.(*ssa.Alloc); ok {
+			for _, st := range storesInto(al) {
+				walk(st.Val, d+1)
+			}
+		}
 		for _, op := range in.Operands(nil) {
 			if *op != nil {
 				walk(*op, d+1)
@@ -996,7 +1002,27 @@ func c18LessComparesTwo(c *Ctx, p *Prog, R string, rels ...string) {
 			continue
 		}
 		i, j := fn.Params[0], fn.Params[1]
-		eachInstr(fn, func(_ *ssa.BasicBlock, in ssa.Instruction) {
+		// func(i, j int) bool { return lessKey(s[i], s[j]) }: the comparisons are the named function's, between its parameters
+		body := fn
+		if len(fn.Blocks) == 1 {
+			if ret, ok := fn.Blocks[0].Instrs[len(fn.Blocks[0].Instrs)-1].(*ssa.Return); ok && len(ret.Results) == 1 {
+				if call, ok := ret.Results[0].(*ssa.Call); ok {
+					if h := call.Call.StaticCallee(); h != nil && h.Pkg == fn.Pkg && h.Blocks != nil && len(h.Params) == 2 && len(call.Call.Args) == 2 {
+						di := func(v ssa.Value, prm *ssa.Parameter) bool {
+							return reaches(v, func(x ssa.Value) bool { return x == ssa.Value(prm) })
+						}
+						a0, a1 := call.Call.Args[0], call.Call.Args[1]
+						if di(a0, i) && !di(a0, j) && di(a1, j) && !di(a1, i) || di(a0, j) && !di(a0, i) && di(a1, i) && !di(a1, j) {
+							body, i, j = h, h.Params[0], h.Params[1]
+						} else {
+							n++
+							c.Bad(R, fmt.Sprintf("%s:delegates", fnName(fn)), p.pos(call.Pos()), "the less function hands the named comparison two arguments that are not element i and element j")
+						}
+					}
+				}
+			}
+		}
+		eachInstr(body, func(_ *ssa.BasicBlock, in ssa.Instruction) {
 			bo, ok := in.(*ssa.BinOp)
 			if !ok {
 				return
